@@ -15,6 +15,7 @@ mod parse;
 mod rename;
 mod stbc;
 mod stcore;
+mod stfeat;
 mod stlib;
 mod util;
 mod webide;
@@ -35,6 +36,9 @@ fn main() {
         "resource-run" => resource::run(rest),
         "stcore-gen" => stcore::gen(rest),
         "resfault-run" => resfault::run(rest),
+        "stfeat" => stfeat::run(rest),
+        "stfeat-child" => stfeat::child(rest),
+        "stfeat-one" => stfeat::one(rest),
         "stlib-run" => stlib::run(rest),
         "stlib-child" => stlib::child(rest),
         "stlib-confirm" => stlib::confirm_child(rest),
